@@ -48,6 +48,13 @@ Edge == <<                                        \* shapes on the three edges o
   G("Point", <<4, 72000>>),
   G("LineString", <<<<2, 72000>>, <<6, 72000>>>>),
   G("Polygon", <<Rect(2, 72000, 6, 72032)>>),
+  \* MultiPolygons whose parts OVERLAP or are NESTED (the type allows it): the original is the UNION of the parts, so a
+  \* point covered twice belongs to it; the probe grid has points inside the doubly covered regions
+  G("MultiPolygon", <<<<Rect(0, 0, 6, 48)>>, <<Rect(2, 16, 8, 64)>>>>),
+  G("MultiPolygon", <<<<Rect(0, 0, 8, 64)>>, <<Rect(2, 16, 6, 48)>>>>),
+  \* areal shapes one sub-tick wide: with the time buffer BT[7] = 4e6 sub-ticks they are 2.5e-7 of the buffer wide
+  G("Polygon", <<Rect(8, 16, 9, 48)>>),
+  G("MultiPolygon", <<<<Rect(8, 0, 9, 32)>>, <<Rect(12, 16, 16, 48)>>>>),
   G("LineString", <<<<0, 0>>, <<1, 32>>, <<2, 16>>>>),   \* with buffers (1, 0): buffer_geometry raises KeyError (found by the random driver)
   \* lines that go BACK in time at an interior vertex (legal: only first time <= last time is required): Z, hook, closed
   \* loop with equal first and last time, and a member of a multi line.  The original is the curve IN THE ORDER GIVEN;
@@ -68,7 +75,7 @@ Geoms == [i \in 1..(Len(TickCat) + Len(Edge)) |-> IF i <= Len(TickCat) THEN Sub(
 
 \* time buffers: 0, 1/2, 1, 2 ticks, far beyond time 0, and (closed-form kinds) 2e8 sub-ticks = 1e8 / 5e7 / 1.25e7 s:
 \* longer than MAX_FREQUENCY seconds at every unit -- the time axis is unbounded above, the result must end at end + tb
-BT == <<0, 1, 2, 4, 200, 200000000>>
+BT == <<0, 1, 2, 4, 200, 200000000, 4000000>>
 \* frequency buffers: 0, 1/2, 1, 2 ticks, twice the domain; and, for shapes within reach of MAX_FREQUENCY, buffers that are
 \* neither powers of two nor round numbers (3, 17, 34, 68, 285 sub-ticks: for 17, 34, 68, 285 the product MAX * (1/b) / (1/b)
 \* is not MAX in doubles) -- the result must stay inside the domain whatever the buffer's binary expansion
@@ -76,8 +83,12 @@ BF == <<0, 8, 16, 32, 2 * FMAXS, 3, 17, 34, 68, 285>>
 NearTop(g) == g.type \notin TimeOnlyKinds /\ Bounds(g, FMAXS)[4] >= FMAXS - 600
 NF(g) == IF NearTop(g) THEN 10 ELSE 5
 UpF(j) == IF j <= 5 THEN Min(j + 1, 5) ELSE Min(j + 1, 10)
-NT(g) == IF g.type \in ClosedKinds THEN 6 ELSE 5   \* the shapely kinds stay below 2^31 / 207 (their targets are scaled by CapD)
-UpT(g, i) == Min(i + 1, NT(g))
+\* BT[6] only for the closed-form kinds; BT[7] (4e6 sub-ticks = 2e6 / 1e6 / 2.5e5 s: seven orders of magnitude above one
+\* sub-tick) only for the thin areal shapes; the other shapely kinds stay below 2^31 / 207 (their targets are scaled by CapD)
+Thin(g) == g.type \in {"Polygon", "MultiPolygon"} /\ \E v \in Vertices(g) : v[1] = 9 /\ \E w \in Vertices(g) : w[1] = 8
+TimeIdx(g) == IF g.type \in ClosedKinds THEN 1..6 ELSE IF Thin(g) THEN (1..5) \cup {7} ELSE 1..5
+NT(g) == IF g.type \in ClosedKinds THEN 6 ELSE 5
+UpT(g, i) == IF Thin(g) /\ i >= 5 THEN 7 ELSE Min(i + 1, NT(g))
 Up(i) == Min(i + 1, 5)
 NegPairs == <<<<<<-1, 0>>, <<0, -8>>>>, <<<<-1, -8>>, <<-2, 16>>>>, <<<<4, -1>>, <<0, 0>>>>>>
 
@@ -112,7 +123,7 @@ TinyRuns == LET N == <<"-1e-9", "-1e-10", "-1e-12", "-5e-324", "-0.0">> IN
           [] OTHER   -> [b |-> <<0, 0>>,  e |-> <<n, n>>]]
 TinyOf(d, run) == TinyRuns[IF run = 1 THEN 2 * d.tn - 1 ELSE Min(2 * d.tn, 15)]
 Descriptors == UNION {UNION {{[gi |-> gi, i |-> i, j |-> j, neg |-> 0, tn |-> 0, u |-> u, ty |-> q] : u \in UnitsOf(gi, i, j), q \in TypesOf(gi, i, j)} :
-                                 i \in 1..NT(Geoms[gi]), j \in 1..NF(Geoms[gi])} : gi \in 1..Len(Geoms)}
+                                 i \in TimeIdx(Geoms[gi]), j \in 1..NF(Geoms[gi])} : gi \in 1..Len(Geoms)}
           \cup {[gi |-> gi, i |-> 1, j |-> 1, neg |-> n, u |-> (n % 3) + 1, ty |-> <<1, 2, 5>>[((gi + n) % 3) + 1], tn |-> 0] : gi \in 1..Len(Geoms), n \in 1..3}
           \cup {[gi |-> gi, i |-> 1, j |-> 1, neg |-> 0, tn |-> q, u |-> (q % 3) + 1, ty |-> 2] : gi \in 1..Len(Geoms), q \in 1..8}
 B1(d) == IF d.tn > 0 THEN TinyOf(d, 1).b ELSE IF d.neg = 0 THEN <<BT[d.i], BF[d.j]>> ELSE NegPairs[d.neg][1]
